@@ -204,7 +204,7 @@ def unhx(t):
 def run_lines(binary, sub, lines, timeout=600):
     inp = "\n".join(lines) + "\n"
     r = subprocess.run([os.path.join(BIN, binary), sub], input=inp, text=True, capture_output=True, timeout=timeout)
-    out = r.stdout.splitlines()
+    out = [l.rstrip() for l in r.stdout.splitlines()]
     return out, r
 
 
@@ -236,6 +236,8 @@ class Report:
     def __init__(self, pid, tier, seed):
         self.pid, self.tier, self.seed = pid, tier, seed
         self.t0 = time.time()
+        for old in glob.glob(os.path.join(ROOT, "replays", "%s_*.json" % pid)):
+            os.remove(old)
         self.violations = []
         self.known = []
         self.cov = {"evaluations": 0, "distinct_nontrivial": 0, "rule": "", "samples": [],
